@@ -229,7 +229,7 @@ def mk_iterative3(qa, qb, n_inter):
     return body
 
 
-def mk_two_copies(name, lo):
+def mk_two_copies(name, lo, width=2.509):
     """a micro-structure and a copy of it (chain B) shifted by a symbolic
     D = k/1000 along x: every group of either copy gets the results of the
     single-copy run"""
@@ -243,7 +243,7 @@ def mk_two_copies(name, lo):
         # the statement needs 25 A between nearest atoms: shift = extent along x + the stated gap
         xs = [float(l[30:38]) for l in txt.split('\n') if l.startswith('ATOM')]
         ext = max(xs) - min(xs)
-        D = ctx.real('separation', lo + ext, lo + ext + 2.509)
+        D = ctx.real('separation', lo + ext, lo + ext + width)
 
         def tr(a):
             if a.chain_id == 'B':
@@ -317,9 +317,9 @@ def obligations(tier):
     seps = [25.0, 997.5] if tier == 'quick' else [25.0, 27.5, 100.0, 997.5, 1000.0, 5000.0, 9950.0]
     for name in (['tri_ASP'] if tier == 'quick' else ['tri_ASP', 'pair_GLU_ARG_TYR', 'pair_ASP_ARG', 'tri_HIS']):
         for lo in seps:
-            obs.append(Obligation('O3-two-copies[%s,D>=%g]' % (name, lo), mk_two_copies(name, lo),
+            obs.append(Obligation('O3-two-copies[%s,D>=%g]' % (name, lo), mk_two_copies(name, lo, 0.8 if tier == 'quick' else 2.509),
                                   code=['propka/run.py:single (whole pipeline)', 'propka/calculations.py:get_smallest_distance', D + 'set_backbone_determinants', E + 'radial_volume_desolvation'],
-                                  bounds='%s (with the program\'s own hydrogens, keep-protons) plus a copy in chain B shifted along x so that the gap between nearest atoms is a real number in [%g, %g]' % (name, lo, lo + 2.509),
+                                  bounds='%s (with the program\'s own hydrogens, keep-protons) plus a copy in chain B shifted along x so that the gap between nearest atoms is a real number in [%g, %g]' % (name, lo, lo + (0.8 if tier == 'quick' else 2.509)),
                                   claim_doc='no exception; every group of either copy has the desolvation, pKa and determinants of the single-copy run',
                                   max_paths=5000, wall_s=170 if tier == 'quick' else 1200, shards=6))
     three = [((-1, -1, 1), (-1, 1), 2)] if tier == 'quick' else [((-1, -1, 1), (-1, 1), 2), ((-1, 1, 1), (-1, -1), 2), ((-1, -1, -1), (1, 1), 2), ((-1, -1, 1), (-1, 1), 3)]
